@@ -26,8 +26,9 @@ def zipPairs (ns vs : List Bytes) : List (Bytes × Bytes) := ns.zip vs
 
 def count (l : List Bytes) (x : Bytes) : Nat := (l.filter (· = x)).length
 
-/-- finding class of a request, from its shape alone (the repaired class is looked at last, so that it
-    is reported only for requests that show none of the open ones) -/
+/-- finding class of a request, from its shape alone (`positional-header-repeated` and
+    `subresource-duplicated` are repaired: they stay the names under which a relapse is reported, and
+    the AGREE classes of such requests carry the marks `+posrep` / `+sub`) -/
 def shapeClass (r : SigV2Spec.Req) : String :=
   let qnames := r.query.map (·.1)
   let hnames := r.headers.map fun h => SigV2Spec.lower h.1
@@ -147,7 +148,9 @@ def judgeSts (id mode : String) (method path : Bytes) (query : Option Bytes) (na
         let amz := if (SigV2Spec.amzHeaders r).isEmpty then "" else "+amz"
         let sub := if (SigV2Spec.signedParams r).isEmpty then "" else "+sub"
         let v := if vh.isSome then "+vh" else ""
-        agree id s!"sts-{mode}{amz}{sub}{v}"
+        -- a repeated Content-MD5 / Content-Type / Date (the repaired region) is visible in the histogram
+        let rep := if shapeClass r = "positional-header-repeated" then "+posrep" else ""
+        agree id s!"sts-{mode}{amz}{sub}{v}{rep}"
 
 /-! ### end to end -/
 
